@@ -59,7 +59,16 @@ class LayeredRayTracing2D(_AbstractDistribution):
         self.distances = (self.receiver_depths**2 + self.shot_offset[0] ** 2) ** 0.5
 
         if tolerance is None:
-            self.tolerance = 0.1 * _numpy.mean(_numpy.diff(self.receiver_depths))
+            # A tenth of the mean spacing of the receiver depths, in whichever order the
+            # receivers are listed (a negative or undefined tolerance is never met, and
+            # the angle search then does not end). Without a spacing (one receiver, all
+            # receivers at one depth): a tenth of the mean layer thickness.
+            spacing = _numpy.diff(_numpy.sort(self.receiver_depths))
+            self.tolerance = 0.1 * _numpy.mean(spacing) if spacing.size > 0 else 0.0
+            if not self.tolerance > 0:
+                self.tolerance = 0.1 * _numpy.mean(
+                    _numpy.diff(_numpy.sort(self.layer_interfaces), prepend=0.0)
+                )
         else:
             self.tolerance = tolerance
 
